@@ -3,3 +3,4 @@ import Properties.C10
 import Properties.C17
 import Properties.C07
 import Properties.C06
+import Properties.C08
